@@ -1021,3 +1021,9 @@ mod test {
         println!("bytes_sent {bytes_sent}");
     }
 }
+
+#[cfg(all(test, feature = "ipa-verif"))]
+#[allow(dead_code, unused_imports, clippy::all, clippy::pedantic)]
+mod ipa_verif_hook {
+    include!(concat!(env!("IPA_VERIF_DIR"), "/hooks/dp.rs"));
+}
